@@ -146,14 +146,14 @@ class RefCache:
     (so that one object may sit at several positions and mask changes follow the object).
     """
 
-    def __init__(self, polys, pts_ld, band, ctol, exact=(), order=None):
+    def __init__(self, polys, pts_ld, band, ctol, exact=(), order=None, ties_pts=None):
         self.npts = pts_ld.shape[0]
         self.order = list(range(len(polys))) if order is None else list(order)
         self.ncs = [len(cm) for _, cm, _ in polys]
         self.tables = []
         for pi, (x, cm, use) in enumerate(polys):
             ex = [(j, k) for j, p, k in exact if p == pi]          # exact entries name the object, not the position
-            self.tables.append(R.cap_table(x, cm, pts_ld, band, ctol, ex))
+            self.tables.append(R.cap_table(x, cm, pts_ld, band, ctol, ex, ties_pts=ties_pts))
 
     def polygon(self, pi, use, ncp):
         return R.combine_caps(self.tables[pi], use, ncp, self.npts)
@@ -198,7 +198,12 @@ class C12(Check):
             'the then-current mask; class `manycaps`: polygons / windows / .ply / FITS / balkans / set_use_caps with '
             '31, 32, 33, 63, 64, 65, 100 caps, masks all-ones, top bits only, low bits only, random, bits above ncaps, and '
             'ncaps restrictions 1, 31, 32, 33, 63, 64, 65, n-1, n, n+2; set_use_caps near-duplicates at 0..10 x tol in '
-            'axis / diagonal / random directions for tol default, 1e-10, 1e-8, 1e-7, 1e-5 (float and numpy scalar).  '
+            'axis / diagonal / random directions for tol default, 1e-10, 1e-8, 1e-7, 1e-5 (float and numpy scalar); class '
+            '`ties`: axis-aligned caps with binary-exact cm (0, 0.125 .. 2, +-) and great-circle caps with a zero '
+            'component, queried at points EXACTLY on their bounding circles (component along the axis = 1 - |cm|, '
+            'Pythagorean azimuths, axis points, the null cap at its centre; one-ulp neighbours stay undecided), as single '
+            'caps, polygons (octants) and windows of polygons sharing an edge: decided by exact rational arithmetic, '
+            'the circle belongs to a cap with cm >= 0.  '
             'Non-trivial: a membership case whose reference evaluated >= 2 used caps incl. a negative one in some '
             'polygon and decided >= 1 point closer than 1e-3 (in 1-x.p) to a cap boundary; a set_use_caps case whose '
             'index list is not a permutation of range(ncaps) or that removes/keeps a same-centre cap.  Distinct by '
@@ -224,6 +229,12 @@ class C12(Check):
         '.ply; FITS USE_CAPS is a 32-bit column (<= 32 caps); window_read keeps USE_CAPS in an int32, so 32 caps raise '
         'OverflowError on the unchanged tree - balkans are exercised up to 31 caps (reported, not asserted)',
         'formats are compared through the reference on decided points, not bit-for-bit inside the band',
+        'exact ties: a point is on the circle only if 1 - x.p == |cm| holds in rational arithmetic on the stored doubles AND '
+        'at most one product of x.p is non-zero and representable, so that every double evaluation (any summation order, FMA) '
+        'reproduces it bit for bit; asserted inside for cm >= 0 (Cartesian float64 only: RA/Dec conversion and float32 '
+        'arithmetic do not preserve the tie).  For cm < 0 the property gives the circle to the cap, not to the complement; '
+        'the unchanged tree reports it inside the complement as well (cdist = -0.0 >= 0): counted '
+        '(exact_tie_complement_reported_inside), not asserted',
     ]
     REQUIRED_COUNTERS = ('radec_integer_dtype_cases', 'centre_asserted', 'centre_tiny_cm_asserted', 'antipode_asserted', 'near_boundary_decided',
                          'negative_caps_evaluated', 'masked_caps_skipped', 'ncaps_restricting', 'radec_cases',
@@ -239,9 +250,13 @@ class C12(Check):
                          'usecaps_chain_dropped_cap_is_no_reference', 'fits_raw_column_subset',
                          'fits_raw_without_weight_pixel_or_str', 'fits_raw_geometry_columns_only', 'fits_raw_extra_columns',
                          'manycaps_mask_ge_2_63', 'manycaps_mask_bit31_or_more', 'manycaps_64_or_more_caps',
-                         'manycaps_window', 'manycaps_file_arms', 'manycaps_usecaps')
+                         'manycaps_window', 'manycaps_file_arms', 'manycaps_usecaps',
+                         'exact_tie_cap_asserted_inside', 'exact_tie_null_cap_centre', 'exact_tie_decides_polygon',
+                         'exact_tie_decides_window', 'exact_tie_complement_seen')
+    # reach is required of the functions whose RETURN VALUES the property speaks about; cap_distance is a helper that
+    # is_in_cap may legitimately stop using (its reach is still recorded in the evidence, not required)
     REQUIRED_REACH = {'mangle.is_in_polygon': 0.9, 'mangle.is_in_window': 0.9, 'mangle.set_use_caps': 0.9,
-                      'mangle.cap_distance': 0.7, 'mangle.read_mangle_polygons': 0.8}
+                      'mangle.is_in_cap': 0.7, 'mangle.read_mangle_polygons': 0.8}
     MIN_NONTRIVIAL = 20
 
     # ------------------------------------------------------------------ setup
@@ -282,6 +297,7 @@ class C12(Check):
             'use_caps': 3000 if q else 80000,
             'sequence': 400 if q else 10000,
             'manycaps': 120 if q else 3000,
+            'ties': 300 if q else 6000,
         }
 
     # ------------------------------------------------------------------ gen
@@ -310,6 +326,8 @@ class C12(Check):
             return self._gen_sequence(g)
         if cls == 'manycaps':
             return self._gen_manycaps(g, i)
+        if cls == 'ties':
+            return self._gen_ties(g, i)
         raise KeyError(cls)
 
     def _gen_polygon_case(self, g, big):
@@ -552,6 +570,87 @@ class C12(Check):
                 'add': add, 'tol': tol_arg, 'tol_np': bool(g.uniform() < 0.3),
                 'allow_doubles': bool(g.uniform() < 0.2), 'allow_neg_doubles': bool(g.uniform() < 0.3),
                 'pts': [[float(c) for c in p] for p in unit(g, 12)]}
+
+    # ---- points EXACTLY on bounding circles (1 - x.p == |cm| bit for bit): the property's "<=" is decidable there
+    TIE_CM = [1.0, 1.0, 1.0, 0.5, 0.25, 0.75, 1.5, 1.25, 0.125, 1.75, 0.0, 2.0]
+    PYTH = [(0.6, 0.8), (0.8, 0.6), (0.28, 0.96), (0.96, 0.28), (1.0, 0.0), (0.0, 1.0)]
+
+    def _tie_cap(self, g):
+        """(x, cm, axis or None): axis-aligned cap with binary-exact cm, or a great-circle cap with one zero component."""
+        a = int(g.integers(3))
+        if g.uniform() < 0.7:
+            x = [0.0, 0.0, 0.0]
+            x[a] = float(g.choice([-1.0, 1.0]))
+            cm = float(self.TIE_CM[int(g.integers(len(self.TIE_CM)))])
+        else:
+            u, v = self.PYTH[int(g.integers(4))]
+            x = [0.0, 0.0, 0.0]
+            x[(a + 1) % 3] = u * float(g.choice([-1.0, 1.0]))
+            x[(a + 2) % 3] = v * float(g.choice([-1.0, 1.0]))
+            cm = 1.0                                                   # tie for the points +-e_a
+        if g.uniform() < 0.25:
+            cm = -cm
+        return x, cm, a
+
+    def _tie_points(self, g, caps):
+        pts = [list(p) for p in AXES]
+        for x, cm, a in caps:
+            s = x[a]
+            if s != 0.0:                                               # axis-aligned: component along the axis = 1 - |cm|
+                z = s * (1.0 - abs(cm))
+                r = math.sqrt(max(0.0, 1.0 - z * z))
+                for _ in range(3):
+                    u, v = self.PYTH[int(g.integers(len(self.PYTH)))]
+                    p = [0.0, 0.0, 0.0]
+                    p[a] = z
+                    p[(a + 1) % 3] = r * u * float(g.choice([-1.0, 1.0]))
+                    p[(a + 2) % 3] = r * v * float(g.choice([-1.0, 1.0]))
+                    pts.append(p)
+                    if g.uniform() < 0.3:                              # one ulp off the circle: inside the band, undecided
+                        q = list(p)
+                        q[a] = float(np.nextafter(z, float(g.choice([-2.0, 2.0]))))
+                        pts.append(q)
+            else:                                                      # great circle through +-e_a
+                for sg in (-1.0, 1.0):
+                    p = [0.0, 0.0, 0.0]
+                    p[a] = sg
+                    pts.append(p)
+        for u, v in self.PYTH[:4]:
+            a = int(g.integers(3))
+            p = [0.0, 0.0, 0.0]
+            p[(a + 1) % 3] = u * float(g.choice([-1.0, 1.0]))
+            p[(a + 2) % 3] = v * float(g.choice([-1.0, 1.0]))
+            pts.append(p)
+        for p in unit(g, 6):
+            pts.append([float(c) for c in p])
+        return pts
+
+    def _gen_ties(self, g, i):
+        window = i % 3 == 2
+        npoly = int(g.integers(2, 4)) if window else 1
+        polys, caps_all = [], []
+        for _ in range(npoly):
+            nc = int(g.choice([1, 1, 2, 3, 3, 4]))
+            caps = [self._tie_cap(g) for _ in range(nc)]
+            if g.uniform() < 0.3:                                      # the octant-like polygon: great circles on distinct axes
+                caps = [([1.0 if q == a else 0.0 for q in range(3)], 1.0, a) for a in g.permutation(3)[:nc]]
+                caps = [(x, cm, int(a)) for x, cm, a in caps]
+            use = (1 << nc) - 1 if g.uniform() < 0.7 else int(g.integers(0, 1 << nc))
+            polys.append(([c[0] for c in caps], [c[1] for c in caps], use))
+            caps_all += caps
+        if window and g.uniform() < 0.5:                               # two stripes sharing an edge
+            xs, cms, use = polys[0]
+            polys[1] = ([[-v if k == 0 else v for v in x] for k, x in enumerate(xs)], list(cms), use)
+        pts = self._tie_points(g, caps_all)
+        nmax = max(len(c) for _, c, _ in polys)
+        ncp = int(g.choice([0, 0, 0, 1, 2, nmax + 1]))
+        if not window:
+            xs, cms, use = polys[0]
+            return {'kind': 'polygon', 'f32': False, 'x': xs, 'cm': cms, 'use': use, 'ncaps': ncp, 'coords': 'xyz',
+                    'pts': pts, 'exact': [], 'requery': other_ncaps(g, ncp, len(cms), 2), 'ties': True}
+        return {'kind': 'window', 'f32': False, 'polys': [{'x': x, 'cm': c, 'use': u} for x, c, u in polys],
+                'ncaps': ncp, 'coords': 'xyz', 'pts': pts, 'exact': [], 'requery': other_ncaps(g, ncp, nmax, 2),
+                'ties': True}
 
     # cap counts at and beyond the machine word sizes (use-mask bit 31 / 32 / 63 / 64 and above)
     MANY = [31, 32, 33, 63, 64, 65, 100]
@@ -841,12 +940,20 @@ class C12(Check):
             poly = M.ManglePolygon()
         else:
             poly = M.ManglePolygon(x=x.copy(), cm=cm.copy(), use_caps=use)
-        # --- single caps
+        # --- single caps (exact ties on the bounding circle are decided only in Cartesian float64 cases that ask for it)
+        ties_pts = pts if case.get('ties') and pts.shape[1] == 3 and not f32 else None
+        table = R.cap_table(x, cm, pts_ld, band, ctol, exact, ties_pts=ties_pts)
         for k in range(n):
-            st, d = R.cap_status(x[k], cm[k], pts_ld, band)
+            st = table[k][0]
+            if ties_pts is not None and table[k][2].any():
+                if cm[k] >= 0:
+                    out.count('exact_tie_cap_asserted_inside', int(table[k][2].sum()))
+                    if cm[k] == 0:
+                        out.count('exact_tie_null_cap_centre')
+                else:
+                    out.count('exact_tie_complement_seen', int(table[k][2].sum()))
             for j, kk in exact:
                 if kk == k:
-                    st[j] = R.centre_status(float(cm[k]), ctol)
                     if st[j] != UND:
                         out.count('centre_asserted')
                         if abs(float(cm[k])) < band:
@@ -857,8 +964,14 @@ class C12(Check):
             ok, got = self._call(out, 'is_in_cap', M.is_in_cap, x[k], cm[k], pts)
             if ok:
                 self._cmp_bool(out, 'cap', got, st, case['pts'], cap=k, cm=float(cm[k]), x=case['x'][k])
+                if ties_pts is not None and cm[k] < 0 and table[k][2].any():
+                    # property: the circle belongs to the cap, hence not to its complement.  Observed, not asserted.
+                    out.count('exact_tie_complement_reported_inside', int(np.asarray(got)[table[k][2]].sum()))
         # --- polygon
-        st, near = R.polygon_status(x, cm, use, ncp, pts_ld, band, ctol, exact)
+        st, near = R.combine_caps(table, use, ncp, len(pts))
+        if ties_pts is not None:
+            st0, _ = R.polygon_status(x, cm, use, ncp, pts_ld, band, ctol, exact)
+            out.count('exact_tie_decides_polygon', int(((st0 == UND) & (st == IN)).sum()))
         nuse = n if ncp <= 0 else min(ncp, n)
         used = [k for k in range(nuse) if (use >> k) & 1]
         if len(used) < n:
@@ -896,7 +1009,6 @@ class C12(Check):
                            'decided points)' % (dt, int(diff.sum()), int(dec.sum())))
                 out.count('radec_integer_dtype_cases')
         # --- the same object asked again with other ncaps values (state must not stick to the object)
-        table = R.cap_table(x, cm, pts_ld, band, ctol, exact)
         values = case.get('requery')
         if values is None:
             values = [v for v in (1, 0, n, n + 2) if v != ncp][:3]
@@ -921,8 +1033,13 @@ class C12(Check):
             out.count('radec_cases')
         if f32:
             out.count('f32_cases')
-        ref = RefCache(polys, pts_ld, band, ctol, exact)
+        ties_pts = pts if case.get('ties') and pts.shape[1] == 3 and not f32 else None
+        ref = RefCache(polys, pts_ld, band, ctol, exact, ties_pts=ties_pts)
         masks = [u for _, _, u in polys]
+        if ties_pts is not None:
+            _, _, _, alt0 = RefCache(polys, pts_ld, band, ctol, exact).window(masks, ncp)
+            _, _, _, alt1 = ref.window(masks, ncp)
+            out.count('exact_tie_decides_window', sum(1 for a0, a1 in zip(alt0, alt1) if a0 is not None and a1 is None))
         if max(ref.ncs) >= 31:
             out.count('manycaps_window')
             if max(ref.ncs) >= 64:
